@@ -150,6 +150,9 @@ Section Effect.
     - (* KExit *)
       destruct (nth_error (wks s) w) as [[[] ev]|] eqn:Ew; try discriminate.
       left. apply (ncr_wk s _ w (KExiting code, ev) (KExited code, ev)); auto.
+    - (* KCTimeout *)
+      destruct (nth_error (wks s) w) as [[[] ev]|] eqn:Ew; try discriminate.
+      left. apply (ncr_wk s _ w (KAtGet, ev) (KAtFlag, ev)); auto.
   Qed.
 End Effect.
 
